@@ -130,7 +130,7 @@ Qed.
 Lemma drain_line_mono inp : forall acc cm rest X, drain_line inp acc = (cm, Some rest) -> drain_line (inp ++ X) acc = (cm, Some (rest ++ X)).
 Proof.
   induction inp as [|r0 inp IH]; intros acc cm rest X; simpl; [discriminate|].
-  destruct (N.eqb (fst r0) 10); [intros [= <- <-]; reflexivity|apply IH].
+  destruct (N.eqb (fst r0) 10 || N.eqb (fst r0) 13); [intros [= <- <-]; reflexivity|apply IH].
 Qed.
 
 Lemma capture_mono f1 : forall f2 k inp t tr v tr' rest X, f1 <= f2 ->
